@@ -719,4 +719,8 @@ def is_consistent(C):
 
     Order as computed by :func:`ro`.
     """
-    return not C3.resolver(C, False, None).had_inconsistency
+    resolver = C3.resolver(C, False, None)
+    # The inconsistency of *C* itself (as opposed to that of its bases)
+    # is only discovered when the merge actually runs.
+    resolver.mro()
+    return not resolver.had_inconsistency
